@@ -126,6 +126,17 @@ FLAVOURS[17] = ("This round, the contributor holds a PLAUSIBLE BUT WRONG BELIEF 
                 "as literally stated, must need something specific to manifest, and must differ in mechanism from the earlier "
                 "changes listed above.")
 
+FLAVOURS[18] = ("This round the change must sit in the LAYER THE PYTHON TESTS SEE LEAST. For the transpiler properties: in the BASIC09 "
+                "runtime library coco/resources/ecb.b09 (the body, PARAM / DIM / TYPE lines or internal RUN calls of one of its "
+                "procedures), or in the code that loads, sizes and bundles it (coco/b09/procbank.py) - not in the grammar, parser, "
+                "visitors or elements. For the image decoder properties: in the code that WRITES the output (header text, maxval, "
+                "sample packing and order, row / page buffering, PNG palette and resize step, closing and flushing, what happens to "
+                "the output file on failure) or that turns option values into geometry - not in the decompression loops. Any "
+                "plausible motive is fine (5-40 changed lines, 'commit_message' in meta.json). The change must break the property "
+                "as literally stated, must need something specific to manifest, and must differ in mechanism from the earlier "
+                "changes listed above. If the property cannot be broken from that layer at all, say so in meta.json and fall back to "
+                "the nearest layer that can.")
+
 
 def main():
     rnd, outdir = int(sys.argv[1]), sys.argv[2]
